@@ -177,8 +177,14 @@ def r01_3_4(run):
             reads_self = f"{var}._grad" in {norm(x) for x in ast.walk(s.value)}
             if reads_self:
                 core = s.value
-                while isinstance(core, ast.Call) and isinstance(core.func, ast.Attribute) and core.func.attr in ("astype", "copy"):
-                    core = core.func.value
+                while True:
+                    if isinstance(core, ast.Call) and isinstance(core.func, ast.Attribute) and core.func.attr in ("astype", "copy") \
+                            and not (dotted(core.func) or "").startswith(("np.", "numpy.")):
+                        core = core.func.value
+                    elif isinstance(core, ast.Call) and (dotted(core.func) or "") in ("np.asarray", "numpy.asarray", "np.array") and core.args:
+                        core = core.args[0]
+                    else:
+                        break
                 ok = isinstance(core, ast.BinOp) and isinstance(core.op, ast.Add)
                 run.ob("R01.3", loc(fi, s), fi.short, f"accumulating store {norm(s)[:50]}", ok,
                        "X = X + ... form" if ok else "gradient contributions are not summed")
@@ -237,11 +243,32 @@ def r01_3_4(run):
                "post-processing node dominates the store; every redefinition in between is a function of the value"
                if ok else "broadcast operands would receive un-reduced gradients")
     cfgw = build_cfg(run, fi, {"self.where is not True": True})
+    def _peel(e):
+        # array-preserving wrappers around the masked product: np.asarray(<e>), <e>.astype(...)
+        while True:
+            if isinstance(e, ast.Call) and (dotted(e.func) or "") in ("np.asarray", "numpy.asarray", "np.array", "np.ascontiguousarray") and e.args:
+                e = e.args[0]
+            elif isinstance(e, ast.Call) and isinstance(e.func, ast.Attribute) and e.func.attr == "astype":
+                e = e.func.value
+            else:
+                return e
+
+    def _is_masking(m):
+        if isinstance(m, ast.AugAssign):
+            return isinstance(m.op, ast.Mult) and "self.where" in norm(m.value)
+        e = _peel(m.value)
+        names = {x.id for x in ast.walk(e) if isinstance(x, ast.Name)}
+        if isinstance(e, ast.BinOp) and isinstance(e.op, ast.Mult):
+            return g in names and "self.where" in {norm(e.left), norm(e.right)}
+        if isinstance(e, ast.Call) and (dotted(e.func) or "") in ("np.multiply", "numpy.multiply") and len(e.args) >= 2:
+            return {norm(a) for a in e.args[:2]} == {g, "self.where"}
+        if isinstance(e, ast.Call) and (dotted(e.func) or "") in ("np.where", "numpy.where") and len(e.args) == 3:
+            return norm(e.args[0]) == "self.where" and norm(e.args[1]) == g and norm(e.args[2]) in ("0", "0.0")
+        return False
+
     masks = [n for n in own_nodes(fi.node) if isinstance(n, (ast.Assign, ast.AugAssign)) and "self.where" in norm(n)
-             and isinstance(getattr(n, "value", None), (ast.BinOp, ast.Attribute, ast.Name))
              and (assigned_name(n) == g or (isinstance(n, ast.AugAssign) and norm(n.target) == g))]
-    mask_ok = [m for m in masks if (isinstance(m, ast.AugAssign) and isinstance(m.op, ast.Mult))
-               or (isinstance(m.value, ast.BinOp) and isinstance(m.value.op, ast.Mult) and g in norm(m.value))]
+    mask_ok = [m for m in masks if _is_masking(m)]
     nm = {cfgw.node_for(m) for m in mask_ok}
     nm.discard(None)
     for s in stores:
